@@ -40,7 +40,7 @@ REPO = os.environ.get("VERIF_REPO", "/repo")
 ALLOWED_DERIVES = {"Clone", "Copy", "PartialEq", "Eq", "Debug", "Default", "PartialOrd", "Ord", "Hash"}
 DROP_ATTR_PREFIX = (
     "serde", "error", "from", "source", "schemars", "cfg_attr", "allow", "must_use", "inline", "track_caller",
-    "doc", "deprecated", "non_exhaustive", "cfg(feature", "cfg(any(test", "cfg(test", "default", "repr", "warn", "deny", "expect",
+    "doc", "deprecated", "non_exhaustive", "cfg(feature", "cfg(any(test", "cfg(test", "repr", "warn", "deny", "expect",
 )
 
 
@@ -243,6 +243,7 @@ class Expander:
         self.clauses = 0
         self.external_fns = []
         self.vis_narrowed = 0
+        self.panic_macros = 0
         self.pub_fields = 0
         self.after_item = []
 
@@ -278,9 +279,10 @@ class Expander:
                         self.rewrites.append("%s: %s" % (rel, log))
                     i = k + 1
                     continue
-            # closure parameter `_`  ->  fresh ident  (|_| , |_, x| , |x, _|)
-            if t.kind == "punct" and t.text in ("|", "||"):
-                pass
+            # `assert!(..)` / `panic!(..)` -> prelude macros with proof obligations (Verus itself uses the std names internally)
+            if t.kind == "ident" and t.text in ("assert", "panic") and i + 1 < len(toks) and toks[i + 1].text == "!" and (i == 0 or toks[i - 1].text not in (".", "::")):
+                edits.append((t.start, t.end, "vx_%s_m" % t.text))
+                self.panic_macros += 1
             i += 1
         # closure `_` params: regex on code outside strings/comments is good enough given the lexer above
         for m in re.finditer(r"\|\s*_\s*\|", text):
@@ -315,7 +317,9 @@ class Expander:
         self.out.add("\n    %s\n" % kw, ("tmpl", fnid, kw))
         for k, (c, ln) in enumerate(clauses):
             self.clauses += 1
-            self.out.add("        " + c + ",\n", ("clause", fnid, kw, k, ln, c))
+            m = re.search(r"\s*//\s*\[[A-Z0-9, ]+\]\s*$", c)
+            code = c[:m.start()] if m else c
+            self.out.add("        " + code + "," + (" " + m.group(0).strip() if m else "") + "\n", ("clause", fnid, kw, k, ln, c))
 
     # ---- items --------------------------------------------------------
     def find(self, items, kind, name_or_header, rel):
@@ -906,6 +910,8 @@ class Expander:
                 continue
             self.out.add(ln + "\n", ("tmpl", i + 1))
             i += 1
+        if self.panic_macros:
+            self.rewrites.append("%d `assert!`/`panic!` sites renamed to prelude macros whose expansion requires the condition / `false` (proof obligations)" % self.panic_macros)
         if self.pub_fields:
             self.rewrites.append("%d struct fields of extracted structs widened to `pub` (visibility only)" % self.pub_fields)
         if self.vis_narrowed:
